@@ -4,12 +4,14 @@ PROP = dict(
     level="model_checking",
     technique="TLA+ spec Usage.tla model-checked by TLC; every generated transition replayed into the real agent.usageTracker and Agent.sendUsageReport behind a scripted OpAMP client, report payloads parsed back (spec->code transition tour)",
     design_ref="DESIGN.md §5 C34",
-    level_text="TLC explores every order of counter growth, sampling (usageTracker.Add), report generation and client outcomes (accepted then acknowledged; pending, previous message sent, retry accepted / failed / pending again; failed) for two usage signals within the horizon, including any number of consecutive failed sends, and checks Conservation (acknowledged usage + unconfirmed + unreported + unsampled = counter growth), NonNegative, NoDoubleCount, InFlightIsPending, DeliveredMonotone and OnlyAckDelivers; every generated transition is executed on the real usageTracker and Agent.sendUsageReport (running in its own goroutine, stepped through a scripted OpAMP client, with Add calls interleaved between its critical sections) and the usage per signal parsed from every OTLP-JSON payload, the acknowledged totals and sendUsageReport's result must equal the model's. Thorough adds a 3-signal model-checking run.",
-    level_note="Exhaustive only within the bound (2 signals, counters <= 2 in quick / 3 in thorough, growth steps 1-2; 3 signals <= 3 for the pure TLC run). The healthCheck loop that reads the metrics store is replaced by direct usageTracker.Add calls with the harness's cumulative values; counters are assumed monotone (a counter that goes backwards - e.g. through the C33 defect - is outside the statement); shutdown (context cancelled while a send is in flight) is not modelled. Whether an all-zero report is sent is left open: the code's convention (a report iff either map has a key) and 'never' are both accepted.",
+    level_text="TLC explores every order of counter growth, sampling (usageTracker.Add), report generation and client outcomes (accepted then acknowledged; pending, previous message sent, retry accepted / failed / pending again (the report is abandoned and its usage stays unconfirmed); failed) for two usage signals within the horizon, including any number of consecutive failed sends, and checks Conservation (acknowledged usage + unconfirmed + unreported + unsampled = counter growth), NonNegative, NoDoubleCount, InFlightIsPending, DeliveredMonotone, OnlyAckDelivers, OnlyAckClearsPending and PendingTwiceKeeps; every generated transition is executed on the real usageTracker and Agent.sendUsageReport (running in its own goroutine, stepped through a scripted OpAMP client, with Add calls interleaved between its critical sections) and the usage per signal parsed from every OTLP-JSON payload, the acknowledged totals and sendUsageReport's result must equal the model's. Thorough adds a 3-signal model-checking run.",
+    level_note="Exhaustive only within the bound (2 signals, counters <= 2 in quick / 3 in thorough, growth steps 1-2; 3 signals <= 3 for the pure TLC run). The healthCheck loop that reads the metrics store is replaced by direct usageTracker.Add calls with the harness's cumulative values; counters are assumed monotone (a counter that goes backwards - e.g. through the C33 defect - is outside the statement); shutdown (context cancelled while a send is in flight) is not modelled. Whether an all-zero report is sent is left open: the code's convention (a report iff either map has a key) and 'never' are both accepted; so is one retry or two after a 'pending' answer. The harness runs in a testing/synctest bubble and derives phase/attempt/result from what the real goroutine is observed to do (called the client, returned, waits), so an unexpected path is a divergence, not a hang.",
     assumptions=["the sampled counters never decrease", "one sendUsageReport at a time (reportUsagePeriodically is the only caller)", "bounded: 2 signals, horizon 2-3"],
     stages=[dict(kind="walk", module="Usage", pkg="agent", test="TestVerifC34Usage", harness=["agent/c34_usage_test.go"],
                  alternatives=[dict(name="keys", cfg={"quick": "MC_Usage_keys.cfg", "thorough": "MC_Usage_keys_big.cfg"}),
-                               dict(name="never", cfg={"quick": "MC_Usage_never.cfg", "thorough": "MC_Usage_never_big.cfg"})],
+                               dict(name="never", cfg={"quick": "MC_Usage_never.cfg", "thorough": "MC_Usage_never_big.cfg"}),
+                               dict(name="keys-3tries", cfg={"quick": "MC_Usage_keys_3tries.cfg", "thorough": "MC_Usage_keys_big_3tries.cfg"}),
+                               dict(name="never-3tries", cfg={"quick": "MC_Usage_never_3tries.cfg", "thorough": "MC_Usage_never_big_3tries.cfg"})],
                  budget={"quick": 40, "thorough": 300}),
             dict(kind="tlc", name="UsageDeep", module="Usage", cfg={"quick": None, "thorough": "MC_Usage_deep.cfg"}, workers=8)],
 )
